@@ -1,8 +1,10 @@
 (** Protocol operations for C09 (see Lib/Val.v).  Bit strings are always
     given as (s, from, to) and encoded by the real [New] in the executor, so
-    every case ties New and the function under test to the code. *)
+    every case ties New and the function under test to the code.  The model
+    side runs the int32-faithful New32 / Len32 (Model/Bitstr32.v; equal to New / Len
+    of Model/Bitstr.v whenever toBit + 7 < 2^31 — Proofs/Bitstr32Proofs.v). *)
 From Coq Require Import ZArith List Bool String.
-From Low Require Import Lib.Bits Lib.BitSeq Lib.Bytes Lib.Lex Lib.Val Lib.Pack_bw Model.Bitstr Spec.BitstrSpec.
+From Low Require Import Lib.Bits Lib.BitSeq Lib.Bytes Lib.Lex Lib.Val Lib.Pack_bw Model.Bitstr Model.Bitstr32 Spec.BitstrSpec Spec.BitstrSearchSpec Spec.BitstrDecodeSpec.
 Import ListNotations.
 Open Scope string_scope.
 Open Scope Z_scope.
@@ -16,12 +18,19 @@ Definition c09_oz (o : option Z) : val := match o with Some z => VZ z | None => 
 Definition bind {A B} (o : option A) (f : A -> option B) : option B :=
   match o with Some x => f x | None => None end.
 
+Fixpoint c09_bits_eqb (a b : list bool) : bool :=
+  match a, b with
+  | [], [] => true
+  | x :: a', y :: b' => Bool.eqb x y && c09_bits_eqb a' b'
+  | _, _ => false
+  end.
+
 Definition ops_C09 : list opdef := [
   {| op_name := "bitstr.New";
      op_run := fun a => match a with
        | [s; f; t] => match as_zs s, as_z f, as_z t with
            | Some s, Some f, Some t =>
-               if range_ok s f t then match New s f t with Some e => vzs e | None => VPanic end else VBad
+               if range_ok s f t then match New32 s f t with Some e => vzs e | None => VPanic end else VBad
            | _, _, _ => VBad end
        | _ => VBad end;
      op_spec := fun_spec (fun a => match a with
@@ -33,7 +42,7 @@ Definition ops_C09 : list opdef := [
      op_run := fun a => match a with
        | [s; f; t] => match as_zs s, as_z f, as_z t with
            | Some s, Some f, Some t =>
-               if range_ok s f t then c09_oz (bind (New s f t) Len) else VBad
+               if range_ok s f t then c09_oz (bind (New32 s f t) Len32) else VBad
            | _, _, _ => VBad end
        | _ => VBad end;
      op_spec := fun_spec (fun a => match a with
@@ -46,7 +55,7 @@ Definition ops_C09 : list opdef := [
        | [s1; f1; t1; s2; f2; t2] => match as_zs s1, as_z f1, as_z t1, as_zs s2, as_z f2, as_z t2 with
            | Some s1, Some f1, Some t1, Some s2, Some f2, Some t2 =>
                if range_ok s1 f1 t1 && range_ok s2 f2 t2 then
-                 c09_oz (bind (New s1 f1 t1) (fun e1 => bind (New s2 f2 t2) (fun e2 => Cmp e1 e2)))
+                 c09_oz (bind (New32 s1 f1 t1) (fun e1 => bind (New32 s2 f2 t2) (fun e2 => Cmp e1 e2)))
                else VBad
            | _, _, _, _, _, _ => VBad end
        | _ => VBad end;
@@ -61,7 +70,7 @@ Definition ops_C09 : list opdef := [
        | [x; s; f; t] => match as_zs x, as_zs s, as_z f, as_z t with
            | Some x, Some s, Some f, Some t =>
                if bytes_okb x && range_ok s f t then
-                 match bind (New s f t) (CmpUpto x) with Some r => VL [VZ r; VZ 1] | None => VPanic end
+                 match bind (New32 s f t) (CmpUpto x) with Some r => VL [VZ r; VZ 1] | None => VPanic end
                else VBad
            | _, _, _, _ => VBad end
        | _ => VBad end;
@@ -76,7 +85,7 @@ Definition ops_C09 : list opdef := [
        | [x; s; f; t] => match as_zs x, as_zs s, as_z f, as_z t with
            | Some x, Some s, Some f, Some t =>
                if bytes_okb x && range_ok s f t then
-                 match bind (New s f t) (StrCmpUpto x), bind (New s f t) (CmpUpto x) with
+                 match bind (New32 s f t) (StrCmpUpto x), bind (New32 s f t) (CmpUpto x) with
                  | Some r, Some r' => VL [VZ r; VZ r'; VZ 1]
                  | _, _ => VPanic end
                else VBad
@@ -87,5 +96,59 @@ Definition ops_C09 : list opdef := [
            | Some x, Some s, Some f, Some t =>
                VL [VZ (spec_CmpUpto x s f t); VZ (spec_CmpUpto x s f t); VZ 1]
            | _, _, _, _ => VBad end
-       | _ => VBad end) |}
+       | _ => VBad end) |};
+  (* WIDENED: [CmpUpto(a, e), Cmp(New(a, 0, min(8*len(a), Len(e))), e)]: truncate-compare = compare of the truncation *)
+  {| op_name := "bitstr.CmpUpto/viaNew";
+     op_run := fun a => match a with
+       | [x; s; f; t] => match as_zs x, as_zs s, as_z f, as_z t with
+           | Some x, Some s, Some f, Some t =>
+               if bytes_okb x && range_ok s f t then
+                 match bind (New32 s f t) (fun e =>
+                         bind (CmpUpto x e) (fun r1 =>
+                         bind (Len32 e) (fun n =>
+                         bind (New32 x 0 (Z.min (8 * zlen x) n)) (fun e2 =>
+                         bind (Cmp e2 e) (fun r2 => Some [r1; r2]))))) with
+                 | Some rs => vzs rs | None => VPanic end
+               else VBad
+           | _, _, _, _ => VBad end
+       | _ => VBad end;
+     op_spec := fun_spec (fun a => match a with
+       | [x; s; f; t] => match as_zs x, as_zs s, as_z f, as_z t with
+           | Some x, Some s, Some f, Some t =>
+               VL [VZ (spec_CmpUpto x s f t); VZ (spec_CmpUpto x s f t)]
+           | _, _, _, _ => VBad end
+       | _ => VBad end) |};
+  (* WIDENED: [CmpUpto(k, e) for k in keys], keys sorted by bytes.Compare: the results must be the
+     spec's values and (hence) non-decreasing, i.e. the matches form one contiguous block *)
+  {| op_name := "bitstr.CmpUpto/sorted";
+     op_run := fun a => match a with
+       | [ks; s; f; t] => match as_zss ks, as_zs s, as_z f, as_z t with
+           | Some ks, Some s, Some f, Some t =>
+               if forallb bytes_okb ks && keys_sortedb ks && range_ok s f t then
+                 match bind (New32 s f t) (fun e => opt_all (map (fun k => CmpUpto k e) ks)) with
+                 | Some rs => vzs rs | None => VPanic end
+               else VBad
+           | _, _, _, _ => VBad end
+       | _ => VBad end;
+     op_spec := fun a obs => match a with
+       | [ks; s; f; t] => match as_zss ks, as_zs s, as_z f, as_z t with
+           | Some ks, Some s, Some f, Some t =>
+               val_eqb (vzs (spec_search ks (B s f t))) obs
+               && match as_zs obs with Some rs => nondecb rs | None => false end
+           | _, _, _, _ => false end
+       | _ => false end |};
+  (* WIDENED: New's output is a well-formed encoding and DEcodes to the bit string of the range
+     (relational reading of "New encodes s[8*floor(from/8), to)") *)
+  {| op_name := "bitstr.New/decode";
+     op_run := fun a => match a with
+       | [s; f; t] => match as_zs s, as_z f, as_z t with
+           | Some s, Some f, Some t =>
+               if range_ok s f t then match New32 s f t with Some e => vzs e | None => VPanic end else VBad
+           | _, _, _ => VBad end
+       | _ => VBad end;
+     op_spec := fun a obs => match a with
+       | [s; f; t] => match as_zs s, as_z f, as_z t, as_zs obs with
+           | Some s, Some f, Some t, Some e => wf_enc e && c09_bits_eqb (decB e) (B s f t)
+           | _, _, _, _ => false end
+       | _ => false end |}
 ].
